@@ -18,6 +18,7 @@ import MocVerif.Model.STText
 import MocVerif.Props.C07
 import MocVerif.Lemmas.TextST
 import MocVerif.Lemmas.Fits
+import MocVerif.Lemmas.FitsRead
 
 namespace Moc.STCodec.C11
 open Moc Moc.STCodec
@@ -141,6 +142,30 @@ theorem fits_st_file_roundtrip (w d1 d2 : Nat) (es : List Elem) (hes : ∀ e ∈
   unfold readStructure stFile
   rw [hr, hwl]
   simp only [Option.map_some, decodeWords_encodeWords, fits_st_roundtrip w es hes]
+
+/-- **The header of the ST file is read back**: the values the reader extracts from the table header of the file
+    written for an ST-MOC — row width, row count, `MOCDIM = 'TIME.SPACE'`, `ORDERING`, the time depth `MOCORD_T`,
+    the space depth `MOCORD_S`, `TFORM1` — are the ones of the ST-MOC, whatever its two depths and number of rows. -/
+theorem fits_st_file_header (w d1 d2 : Nat) (rows : List Rng) (h1 : d1 ≤ 255) (h2 : d2 ≤ 255)
+    (hw : w / 8 < 10 ^ 20) (hn : rows.length <<< 1 < 10 ^ 20) :
+    decodeHdrST ((((stFile w d1 d2 rows).drop 2880).take 2880).map Char.ofNat) =
+      some (w / 8, rows.length <<< 1, ['T', 'I', 'M', 'E', '.', 'S', 'P', 'A', 'C', 'E'], ['R', 'A', 'N', 'G', 'E'],
+            d1, d2, tform w) := by
+  have hwl : (encodeWords rows).length = rows.length <<< 1 := by
+    rw [encodeWords_length, Nat.shiftLeft_eq, Nat.pow_one, Nat.mul_comm]
+  have hp := block_length _ primaryCards_80 (by decide)
+  have ht80 := tableCardsOf_80 w (encodeWords rows).length (stCards w d1 d2) (stCards_80 w d1 d2 h1 h2) hw (by rw [hwl]; exact hn)
+  have ht := block_length _ ht80 (tableCardsOf_count w (encodeWords rows).length (stCards w d1 d2) (by simp [stCards]))
+  have hl1 : ((block primaryCards).map Char.toNat).length = 2880 := by simp only [List.length_map, hp]
+  have hl2 : ((block (tableCardsOf w (encodeWords rows).length (stCards w d1 d2))).map Char.toNat).length = 2880 := by
+    simp only [List.length_map, ht]
+  have hb : (((stFile w d1 d2 rows).drop 2880).take 2880).map Char.ofNat
+      = block (tableCardsOf w (encodeWords rows).length (stCards w d1 d2)) := by
+    unfold stFile fileOf
+    simp only []
+    rw [List.map_append, List.append_assoc, List.append_assoc, List.drop_left' hl1, List.take_left' hl2, map_ofNat_toNat]
+  rw [hb, hwl]
+  exact decodeHdrST_written w d1 d2 (rows.length <<< 1) h1 h2 hw hn
 
 end FitsFile
 
